@@ -207,9 +207,9 @@ def audit_axioms(pid, names):
 	rc, out = run(['lake', 'env', 'lean', f], cwd=LEAN_DIR, timeout=1800)
 	res = {n: None for n in names}
 	# output format: "'name' depends on axioms: [a, b]" or "'name' does not depend on any axioms"
-	for m in re.finditer(r"'([^']+)' depends on axioms: \[([^\]]*)\]", out):
+	for m in re.finditer(r"'(\S+)' depends on axioms: \[([^\]]*)\]", out):
 		res[m.group(1)] = [a.strip() for a in m.group(2).replace('\n', ' ').split(',') if a.strip()]
-	for m in re.finditer(r"'([^']+)' does not depend on any axioms", out):
+	for m in re.finditer(r"'(\S+)' does not depend on any axioms", out):
 		res[m.group(1)] = []
 	return res, out
 
